@@ -21,7 +21,7 @@ SPEC = {
     "assumptions": ["algosdk.abi codec as the callee's decoder", "vlib/avm.py itxn_begin/itxn_field/itxn_next/itxn_submit recording"],
     "min_evaluations": {"quick": 1500, "thorough": 15000},
     "must_reach": ["call_ok", "ref_args", "txn_args", "extra_foreign_fields", "mistyped_rejected", "preencoded_args", "execute_form", "builder_form"],
-    "shard_timeout": {"quick": 900, "thorough": 7200},
+    "shard_timeout": {"quick": 2400, "thorough": 14400},
 }
 
 KNOWN15 = "C14-more-than-15-arguments"
